@@ -522,7 +522,6 @@ func c13r3(c *Ctx) {
 	}
 }
 
-
 // readOnlyForeign: functions outside the module that only read the slice they receive at position i (and keep no writable
 // alias of it). Everything else is treated as a potential writer: bytes.NewBuffer takes ownership and later writes go into the
 // spare capacity of the argument; the Append*/Put*/Encode(dst, …) families write into their destination.
